@@ -38,7 +38,7 @@ def run(ck: Check) -> None:
                 ck.violation("rejected although threshold-many valid authorized signatures are present",
                              {"request": "vsignable " + proto.enc(case.args[0])[:1500], "authorized": case.args[1], "threshold": case.meta["thr"], "mode": case.tag,
                               "stdout_encoding": case.enc, "impl": r.impl, "oracle_count": case.meta["count"], "entry_states": case.meta["states"],
-                              "other_entry_keys": [proto.enc(k) for k in junk]},
+                              "other_entry_keys": [proto.label(k) for k in junk]},
                              f"incomplete:{case.tag}:{r.impl}")
 
     # everything produced by the library's own signing functions verifies
